@@ -643,6 +643,16 @@ def t_process_queue(E):
             E.cut_loop(stn, fr, inv, havoc, test=test, label='round', step=step, on_exit=on_exit)
         E.hooks[(Qn, 'loop', 0)] = main_loop
 
+        def sequential_loads(E_, stn, fr, kind, it):
+            if isinstance(it, Obj) and it.cls == 'GenList':
+                E.oblige(Qn + '/load.pending_producers_are_loaded_concurrently', z3.BoolVal(False), props={'C03', 'C07'},
+                         detail='a loop that awaits the pending loads one after the other: a producer that can only '
+                                'finish once a LATER producer of the same round is being iterated blocks the round for '
+                                'ever (gather() runs them together)')
+                raise PathEnd()
+            raise Unsupported('loop #1 of _process_queue over %r' % (it,), stn)
+        E.hooks[(Qn, 'loop', 1)] = sequential_loads
+
         E.cover(Qn + '/requires')
         E.canary(Qn + '/canary@entry')
         try:
@@ -981,6 +991,13 @@ def t_wait(E):
                 return (VBool(True),)
             return None
         Bn['__await_ext__'] = aw_ext
+        def rewait(E_, stn, fr, kind, it):
+            E.oblige(Qn + '/ensures.returns_at_the_first_wake_up_of_the_completion_flag', z3.BoolVal(False), props={'C07'},
+                     detail='a loop around the wait for the flag: under a steady stream of submissions the flag is '
+                            'cleared again before the waiter runs, and wait() never returns although everything '
+                            'submitted before it was delivered')
+            raise PathEnd()
+        E.hooks[(Qn, 'loop', 0)] = rewait
         cancel = E.fresh_bool('cancel')
         E.cover(Qn + '/requires')
         E.canary(Qn + '/canary@entry')
